@@ -120,3 +120,13 @@ claim("C42", "E7-indexer", "exploration", "differential runtime monitor: real Tr
       "generated chain segments with shared signers/recipients, ante failures (not indexed), replayed bytes and digit-count-boundary heights; Get by hash, Search by height/signer/recipient in both directions for every page size 1..n+1: contents, order, totals, no skip/repeat; the asc/desc inversion is listed as a known finding and everything else is still checked modulo that inversion",
       "trusted: Go runtime, tm-db, the sorted-slice reference", "DESIGN.md §4 C42")
 ENGINES.append({"name": "E7-indexer", "path": "internal/checks/c42_indexer.go", "serves_properties": ["C42"], "kind_free_text": "indexer harness over MemDB and goleveldb with a sorted-slice reference"})
+ENGINES[-3]["serves_properties"] += ["C11", "C13", "C16"]
+claim("C11", "E3-chain", "exploration", "twin-process differential + store-digest audit around every off-chain call (CheckTx / simulate / store, custom and app queries at latest and past heights) interleaved at every gap between ABCI calls",
+      "one campaign per perturbation kind: raw digests of all persistent stores are compared right before and after each of ~1600 off-chain calls per run, and the perturbed twin's per-tx results and app hashes must equal the unperturbed twin's for every later block; two genuine defects (simulate executing on committed state, custom queries poisoning a consensus-read cache) were repaired by fix: commits; held-on-observed",
+      E3NOTE, "DESIGN.md §4 C11")
+claim("C13", "E3-chain", "exploration", "twin-process differential: node serving historical custom queries / app.Query* / dispatch / mixed traffic vs a node that never served anything; app hashes and tx results compared for every block",
+      "histories built to trigger stale-cache-then-state-change orderings (7 applications against a 5-entry LRU with constant edit-stakes, jailing, unstaking) with off-chain reads at past heights and dispatches between ABCI calls; any divergence is a witness; the application-LRU leak found this way was repaired (fix: commit); relay handling is covered by C34/C35; held-on-observed",
+      E3NOTE, "DESIGN.md §4 C13")
+claim("C16", "E3-chain", "exploration", "per-transaction pre/post oracle on second deliveries: identical bytes and 6 semantics-preserving protobuf re-encodings (validated with the app's own decoder) in the same and later blocks",
+      "for 6 message kinds x 7 resubmission classes x 4 placements a freshly signed tx is delivered, then resubmitted; the second delivery must be rejected with all store digests unchanged; identical bytes are rejected, all six re-encodings execute again: listed as 12 known findings (class x placement); legacy amino era not exercised",
+      TXNOTE, "DESIGN.md §4 C16")
